@@ -182,4 +182,42 @@ def progBlindRotationBlock (block : Nat) (accDft zero : Val) (vmpTmp : Nat → V
         .write 6 cr (.read 6 (fun cr' => .ret (normRest o cr'))))))))
   .write 0 accDft (.write 1 zero ((loopN block body).bind (fun _ => tail)))
 
+/-! ### the shift / normalise family (poulpy-cpu-ref/src/reference/vec_znx/shift.rs, normalize.rs, reference/ntt120/vec_znx_big.rs)
+
+Scratch cells: 0 = the carry buffer, 1 = the spare limb (`zero` / `tmp`) of the right shifts and the normalisations.
+The carry is initialised on two different paths: by `znx_normalize_first_step_carry_only` when at least one limb of the
+operand is discarded (`nOut > 0`: it writes the carry without reading it), by `znx_zero(carry)` otherwise.  The
+programs take a flag for each zero fill so that the theorems can say which fill is needed on which path. -/
+
+/-- carry phase shared by the whole family: `nOut` discarded limbs of the operand (most significant last) -/
+def carryPhase (zeroCarry : Bool) (zero : Val) (firstCO : Nat → Val) (midCO : Nat → Val → Val) (k : Prog Val α) : Nat → Prog Val α
+  | 0 => if zeroCarry then .write 0 zero k else k
+  | m + 1 => .write 0 (firstCO m) ((loopN m (fun j => .read 0 (fun c => .write 0 (midCO j c) (.ret ())))).bind (fun _ => k))
+
+/-- the limbs that read and update the carry (`znx_normalize_middle_step*` / `final_step*`): `work` of them, newest first -/
+def carrySteps (step : Nat → Val → Val × Val) : Nat → List Val → Prog Val (List Val)
+  | 0, acc => .ret acc
+  | j + 1, acc => .read 0 (fun c => let (o, c') := step j c; .write 0 c' (carrySteps step j (o :: acc)))
+
+/-- `vec_znx_lsh`, `vec_znx_lsh_add_into`, `vec_znx_lsh_sub` (and `glwe_lsh`, `glwe_lsh_add`, `glwe_lsh_sub` per column):
+`nOut = a_size − carry_only_start` limbs only contribute their carry, `minSize` limbs are written through the carry.
+`zeroCarry = true` is the library; the seeded change is `zeroCarry = !(a_size > res_size)`. -/
+def progLsh (zeroCarry : Bool) (nOut minSize : Nat) (zero : Val) (firstCO : Nat → Val) (midCO : Nat → Val → Val)
+    (step : Nat → Val → Val × Val) : Prog Val (List Val) :=
+  carryPhase zeroCarry zero firstCO midCO (carrySteps step minSize []) nOut
+
+/-- `vec_znx_rsh`, `vec_znx_rsh_add_into`, `vec_znx_rsh_sub`, `vec_znx_rsh_assign`, `vec_znx_normalize` and
+`vec_znx_big_normalize*` with equal radices: after the carry phase, when the operand lies entirely below the
+destination (`gap > 0`) the carry is brought up through `gap` virtual zero limbs read from the spare limb (cell 1),
+which must be zero-filled first; then `work` limbs go through the carry (for `rsh_sub` one of the steps is the negation) -/
+def progRsh (zeroCarry zeroSpare : Bool) (nOut gap work : Nat) (zero : Val) (firstCO : Nat → Val) (midCO : Nat → Val → Val)
+    (gapStep : Val → Val → Val) (step : Nat → Val → Val × Val) : Prog Val (List Val) :=
+  let rest : Prog Val (List Val) := carrySteps step work []
+  let gapPhase : Prog Val (List Val) :=
+    if gap = 0 then rest
+    else
+      let body : Prog Val (List Val) := (loopN gap (fun _ => .read 1 (fun z => .read 0 (fun c => .write 0 (gapStep z c) (.ret ()))))).bind (fun _ => rest)
+      if zeroSpare then .write 1 zero body else body
+  carryPhase zeroCarry zero firstCO midCO gapPhase nOut
+
 end ScratchProg
